@@ -44,6 +44,8 @@ RootStep ==
              \E b \in 0 .. (LayoutOf(k)[i].max \div Block) : c' = SweepSeed(k, i, e, b)
      \/ /\ "run2d" \in Families
         /\ \E N \in 5..6 : \E M \in 0..99 : c' = Run2dSeed(N, M)
+     \/ /\ "run2dq" \in Families          \* reduced vN_M_P family for the quick tier
+        /\ \E N \in 5..6 : \E M \in {0, 1, 7, 10, 63, 99} : c' = Run2dSeed(N, M)
   /\ exp' = NoExp
 
 SweepStep ==
